@@ -20,7 +20,7 @@ REFUTE_RE = re.compile(
     r'loop invariant not|decreases not satisfied|could not prove termination|'
     r'possible bit shift underflow/overflow|assertion failure|unreachable|'
     r'constructor of a spec|failed this|recommendation not met|'
-    r'cannot show invariant holds|possible truncation|failed to prove', re.I)
+    r'cannot show invariant holds|possible truncation|failed to prove|fails to satisfy', re.I)
 RLIMIT_RE = re.compile(r'resource limit|rlimit|timed? ?out', re.I)
 
 
